@@ -4,7 +4,8 @@ import PyatvModel.C11.Spec
 /-
 Line protocol (one message = one word, fields separated by `:`; `_` = absent):
 
-  run <fixed 0|1> <now> <msg>*   → per message `<notified 0|1>/<report>` (model: real handlers)
+  run <fixed 0|1> <now> <msg>*   → per message `<woken 0|1>|<report seen at the wake-up, or ->|<report>`
+                                   (model: the handlers with the observation point, `stepW`)
   spec <now> <msg>*              → per message `<report>`               (Spec.lean)
   post <pos|_> <total|_>         → `<pos|_>`                            (Playing._post_process)
 
@@ -16,11 +17,13 @@ Line protocol (one message = one word, fields separated by `:`; `_` = absent):
        X:<bundle>:<cname>                                       remove client
        R:<bundle>:<cname>:<player>                              remove player
        D:<bundle>:<cname>:<player>:<cmds>                       default supported commands
-  bundle  Nat code (0 = unset)        cname  `_` | Nat code
-  player  `_` (unset) | the literal DEFAULT_PLAYER_ID | p<k>
+  Every optional protobuf field crosses with its presence; `WMsg.decode` (Model.lean) says what
+  an unset field means.
+  bundle  `_` (unset) | Nat code (0 = set to "")        cname  `_` | Nat code (0 = set to "")
+  player  `_` (unset) | `=` (set to "") | the literal DEFAULT_PLAYER_ID | p<k>
   pstate  `_` | wire number of pb.PlaybackState
-  cmds    `_` (field absent) | `=` (present, empty) | command.shuffleMode.repeatMode,…
-  queue   `_` | <location>;<item>;…       items  `=` (none) | <item>;…
+  cmds    `_` (field absent) | `=` (present, empty) | command.shuffleMode.repeatMode,… (each `_` or a number)
+  queue   `_` (field absent) | <location|_>;= (no items) | <location|_>;<item>;…     items  `=` (none) | <item>;…
   item    <ident>~<title>~<rate>~<duration>~<elapsed>~<timestamp>   (each `_` or a number)
   report  `dangling` | <DeviceState value>/<title>/<item id>/<total>/<position>/<shuffle>/<repeat>/<app>
   app     `_` | <name|_>@<bundle>
@@ -34,11 +37,12 @@ def optNat? (s : String) : Option (Option Nat) :=
 def optInt? (s : String) : Option (Option Int) :=
   if s == "_" then some none else s.toInt?.map some
 
-def player? (s : String) : Option Nat :=
-  if s == "_" then some 0
-  else if s == defaultPlayerId then some defaultPlayer
+def player? (s : String) : Option (Option Nat) :=
+  if s == "_" then some none
+  else if s == "=" then some (some 0)
+  else if s == defaultPlayerId then some (some defaultPlayer)
   else match s.toList with
-    | 'p' :: rest => (String.ofList rest).toNat?.map (· + 2)
+    | 'p' :: rest => (String.ofList rest).toNat?.map (fun k => some (k + 2))
     | _ => none
 
 def ps? (s : String) : Option (Option PS) :=
@@ -54,21 +58,21 @@ def ps? (s : String) : Option (Option PS) :=
     else if n = psSeeking then some (some .seeking)
     else none
 
-def cmd? (s : String) : Option Cmd :=
-  match (s.splitOn ".").mapM String.toNat? with
+def cmd? (s : String) : Option WCmd :=
+  match (s.splitOn ".").mapM optNat? with
   | some [c, sh, r] => some ⟨c, sh, r⟩
   | _ => none
 
-def cmdList? (s : String) : Option (List Cmd) :=
+def cmdList? (s : String) : Option (List WCmd) :=
   if s == "=" then some [] else (s.splitOn ",").mapM cmd?
 
-def optCmds? (s : String) : Option (Option (List Cmd)) :=
+def optCmds? (s : String) : Option (Option (List WCmd)) :=
   if s == "_" then some none else (cmdList? s).map some
 
-def item? (s : String) : Option Item :=
+def item? (s : String) : Option WItem :=
   match s.splitOn "~" with
   | [i, t, r, d, e, ts] => do
-    let i ← i.toNat?
+    let i ← optNat? i
     let t ← optNat? t
     let r ← optInt? r
     let d ← optInt? d
@@ -77,25 +81,25 @@ def item? (s : String) : Option Item :=
     pure ⟨i, { title := t, rate := r, duration := d, elapsed := e, ts := ts }⟩
   | _ => none
 
-def items? (s : String) : Option (List Item) :=
+def items? (s : String) : Option (List WItem) :=
   if s == "=" then some [] else (s.splitOn ";").mapM item?
 
-def queue? (s : String) : Option (Option (Nat × List Item)) :=
+def queue? (s : String) : Option (Option (Option Nat × List WItem)) :=
   if s == "_" then some none else
   match s.splitOn ";" with
   | [] => none
   | loc :: rest => do
-    let loc ← loc.toNat?
-    let its ← rest.mapM item?
+    let loc ← optNat? loc
+    let its ← if rest == ["="] then some [] else rest.mapM item?
     pure (some (loc, its))
 
-def path? (b n p : String) : Option Path := do
-  let b ← b.toNat?
+def path? (b n p : String) : Option WPath := do
+  let b ← optNat? b
   let n ← optNat? n
   let p ← player? p
   pure ⟨b, n, p⟩
 
-def msg? (w : String) : Option Msg :=
+def msg? (w : String) : Option WMsg :=
   match w.splitOn ":" with
   | ["S", b, n, p, ps, cmds, q] => do
     let path ← path? b n p
@@ -107,10 +111,10 @@ def msg? (w : String) : Option Msg :=
     let path ← path? b n p
     let its ← items? its
     pure (.contentItemUpdate path its)
-  | ["C", b, n] => do pure (.setNowPlayingClient (← b.toNat?) (← optNat? n))
+  | ["C", b, n] => do pure (.setNowPlayingClient (← optNat? b) (← optNat? n))
   | ["P", b, n, p] => do pure (.setNowPlayingPlayer (← path? b n p))
-  | ["N", b, n] => do pure (.updateClient (← b.toNat?) (← optNat? n))
-  | ["X", b, n] => do pure (.removeClient (← b.toNat?) (← optNat? n))
+  | ["N", b, n] => do pure (.updateClient (← optNat? b) (← optNat? n))
+  | ["X", b, n] => do pure (.removeClient (← optNat? b) (← optNat? n))
   | ["R", b, n, p] => do pure (.removePlayer (← path? b n p))
   | ["D", b, n, p, cmds] => do
     let path ← path? b n p
@@ -140,8 +144,11 @@ def showReport : Option Report → String
 def runModel (fixed : Bool) (now : Int) : Mgr → List Msg → List String
   | _, [] => []
   | s, m :: ms =>
-    let (s', n) := stepG fixed s m
-    s!"{if n then 1 else 0}/{showReport (report now s')}" :: runModel fixed now s' ms
+    let (s', w) := stepW fixed s m
+    let seen := match w with
+      | none => "0|-"
+      | some sw => s!"1|{showReport (report now sw)}"
+    s!"{seen}|{showReport (report now s')}" :: runModel fixed now s' ms
 
 def runSpec (now : Int) : Spec.SState → List Msg → List String
   | _, [] => []
@@ -154,11 +161,11 @@ def handle (_ : Unit) (ws : List String) : Unit × String :=
   | "run" :: fixed :: now :: msgs =>
     match (if fixed == "1" then some true else if fixed == "0" then some false else none),
           now.toInt?, msgs.mapM msg? with
-    | some fixed, some now, some msgs => ((), csv (runModel fixed now Mgr.init msgs))
+    | some fixed, some now, some msgs => ((), csv (runModel fixed now Mgr.init (msgs.map WMsg.decode)))
     | _, _, _ => ((), "bad-op")
   | "spec" :: now :: msgs =>
     match now.toInt?, msgs.mapM msg? with
-    | some now, some msgs => ((), csv (runSpec now Spec.SState.init msgs))
+    | some now, some msgs => ((), csv (runSpec now Spec.SState.init (msgs.map WMsg.decode)))
     | _, _ => ((), "bad-op")
   | ["post", p, t] =>
     match optInt? p, optInt? t with
